@@ -11,7 +11,18 @@
      - a struct gives a map with one key per exported field, named by the field name with its
        first letter lowered (when the LowerCamel option is set), values corresponding;
        unexported fields do not appear; embedded fields are ordinary fields named by their type;
+     - an unsigned integer that no Int can hold (>= 2^63) gives the Float nearest to it: relative
+       error at most 2^-53 (REPAIR notes/pending/C20-uint64-float.diff; the pinned tree wraps it
+       to a negative Int);
      - a Marshaler gives what MarshalValue returns; an existing data.Value is itself.
+       Go's method sets make both depend on how the value is reached: behind two or more pointers
+       (or a pointer to an interface) neither method set is consulted and the value converts as the
+       plain Go value it is -- a Marshaler like its underlying struct/slice/..., a data.Value like
+       its underlying type (Int int64, ..., Null and Undefined are empty structs, List a slice of
+       Values, Map a string-keyed map).  The relation allows both readings; WHICH one the converter
+       takes at which pointer depth is stated by the theorems conv_marshal_direct / conv_marshal_deep /
+       conv_value_direct / conv_value_deep of Proofs/ConvertProofs.v;
+     - a nil pointer is null whatever it points to.
    Identities (ids) of the produced lists and maps are not constrained here ("modulo ids");
    they are the subject of the freshness theorems. *)
 From Soy Require Import Model.Bytes Model.Num Model.Utf8 Model.Values Model.Convert.
@@ -27,6 +38,17 @@ Fixpoint last_binding {A} (k : bstr) (l : list (bstr * A)) : option A :=
       | None => if bstr_eqb k k' then Some x else None
       end
   end.
+
+(* a data.Value seen as the plain Go value it is (its underlying type) *)
+Inductive plain_of : value -> value -> Prop :=
+| po_bool x : plain_of (VBool x) (VBool x)
+| po_int z : plain_of (VInt z) (VInt z)
+| po_float f : plain_of (VFloat f) (VFloat f)
+| po_str s : plain_of (VStr s) (VStr s)
+| po_null i : plain_of VNull (VMap i [])          (* type Null struct{}: a struct without fields *)
+| po_undef i : plain_of VUndef (VMap i [])        (* type Undefined struct{} *)
+| po_list i j l : plain_of (VList i l) (VList j l) (* type List []Value: the elements are Values and stay *)
+| po_map i j m : plain_of (VMap i m) (VMap j m).   (* type Map map[string]Value *)
 
 Section Spec.
   Variable lower_camel : bool.
@@ -49,7 +71,10 @@ Section Spec.
   | cv_nil : converts GNil VNull
   | cv_bool x : converts (GBool x) (VBool x)
   | cv_int w z : converts (GInt w z) (VInt z)
-  | cv_uint w z : converts (GUint w z) (VInt z)
+  | cv_uint w z : (z < two63)%Z -> converts (GUint w z) (VInt z)
+  | cv_uint_big w z m e :
+      (two63 <= z)%Z -> (0 <= e)%Z -> (Z.abs (m * 2 ^ e - z) * two53 <= z)%Z ->
+      converts (GUint w z) (VFloat (FFin m e))
   | cv_float w f : converts (GFloat w f) (VFloat f)
   | cv_str s : converts (GStr s) (VStr s)
   | cv_time s : converts (GTime s) (VStr s)
@@ -69,21 +94,12 @@ Section Spec.
   | cv_ptr g v : converts g v -> converts (GPtr (Some g)) v
   | cv_iface_nil : converts (GIface None) VNull
   | cv_iface g v : converts g v -> converts (GIface (Some g)) v
-  | cv_marshal v : converts (GMarshal v) v
-  | cv_value v : converts (GValue v) v.
+  | cv_nilptr m : converts (GNilPtrTo m) VNull
+  | cv_marshal v u : converts (GMarshal v u) v
+  | cv_marshal_plain v u r : converts u r -> converts (GMarshal v u) r
+  | cv_value v : converts (GValue v) v
+  | cv_value_plain v r : plain_of v r -> converts (GValue v) r.
 End Spec.
-
-(* A Go unsigned integer of at least 2^63 has no Int with the same value (Int is int64).
-   [uints_fit g]: no such value occurs in g. *)
-Fixpoint uints_fit (g : goval) : bool :=
-  match g with
-  | GUint _ z => (0 <=? z)%Z && (z <? two63)%Z
-  | GSlice (Some l) => forallb uints_fit l
-  | GMap (Some m) => forallb (fun kx => uints_fit (snd kx)) m
-  | GStruct fs => forallb (fun fd => uints_fit (snd (snd (snd fd)))) fs
-  | GPtr (Some g') | GIface (Some g') => uints_fit g'
-  | _ => true
-  end.
 
 (* values reflect can actually produce: integers within the range of their kind *)
 Fixpoint ints_in_range (g : goval) : bool :=
@@ -94,5 +110,24 @@ Fixpoint ints_in_range (g : goval) : bool :=
   | GMap (Some m) => forallb (fun kx => ints_in_range (snd kx)) m
   | GStruct fs => forallb (fun fd => ints_in_range (snd (snd (snd fd)))) fs
   | GPtr (Some g') | GIface (Some g') => ints_in_range g'
+  | GMarshal _ u => ints_in_range u
   | _ => true
+  end.
+
+(* The one thing NewWith does that is not a conversion: where it inspects the DYNAMIC TYPE of its
+   argument (the argument itself, an element, a map value, a field -- not below a pointer) a pointer
+   to one of the eight data.Value types, nil or not, satisfies the data.Value interface through Go's
+   method sets and is returned as it is: a data.Value that is none of the eight value types.  The
+   model has no such value (OutOfModel); [ptr_to_value CSlot g] says that g contains such a position. *)
+Fixpoint ptr_to_value (ctx : cctx) (g : goval) : bool :=
+  match g with
+  | GValue _ => match ctx with CPtr => true | _ => false end
+  | GNilPtrTo false => match ctx with CSlot => true | _ => false end
+  | GPtr (Some g') => ptr_to_value (match ctx with CSlot => CPtr | _ => CDeep end) g'
+  | GIface (Some g') => ptr_to_value (match ctx with CSlot => CSlot | _ => CDeep end) g'
+  | GMarshal _ u => match ctx with CDeep => ptr_to_value CDeep u | _ => false end
+  | GSlice (Some l) => existsb (ptr_to_value CSlot) l
+  | GMap (Some m) => existsb (fun kx => ptr_to_value CSlot (snd kx)) m
+  | GStruct fs => existsb (fun fd => fst (snd fd) && ptr_to_value CSlot (snd (snd (snd fd)))) fs
+  | _ => false
   end.
